@@ -15,6 +15,8 @@ def main():
     runner = cases.Runner(mp)
     common.run_models(chk, [("RoundingLemmas", "RoundingLemmas_quick.cfg", "RoundingLemmas_thorough.cfg")])
     machine.run(chk, mp)
+    machine.run_unary(chk, mp, [("MpfMachine", "MpfMachine_sqrt_%s.cfg" % chk.pick("quick", "thorough"), "exact", True)]
+                      + chk.pick([], [("MpfMachineL", "MpfMachineL_sqrt.cfg", "real", True)]))
     g = gen.G(chk.seed * 1000003 + 2)
     cs = arith.group_c02(g, chk.pick(5000, 120000))
     common.judge_cases(chk, cs, runner, "post", "correct rounding violated")
